@@ -636,6 +636,12 @@ func runPipeline(c *core.Ctx, en *env, root *node, rng *rand.Rand, sched []int) 
 	})
 	rootStage := r.mkStage(root)
 	root.thread = 0
+	// before anything runs: the worker of the 1-worker pool must be busy when a 'Q' stage is submitted
+	for _, n := range all {
+		if n.queued {
+			r.env.qBlock()
+		}
+	}
 	go func() {
 		defer func() {
 			if x := recover(); x != nil {
@@ -646,11 +652,6 @@ func runPipeline(c *core.Ctx, en *env, root *node, rng *rand.Rand, sched []int) 
 		}()
 		r.pipe.Execute(rootStage)
 	}()
-	for _, n := range all {
-		if n.queued {
-			r.env.qBlock()
-		}
-	}
 	c.Op("new "+tokens(root), func() string { r.settle(0); return r.status() }())
 	var used []int
 	// release: goroutine k leaves the gate in front of its stage's execution
